@@ -167,6 +167,170 @@ impl Stream for Layouts
 	}
 }
 
+/// words with arbitrary member lists around their declared size: padding
+/// counts towards the size (E380 beyond it); a word that is accepted occupies
+/// what its members and their alignment need, alone, in arrays and as a member
+struct WordLimits;
+impl Stream for WordLimits
+{
+	fn name(&self) -> String
+	{
+		"word-size-limits".into()
+	}
+	fn count(&self, tier: Tier) -> u64
+	{
+		tier.pick(1500, 40_000)
+	}
+	fn choice_len(&self) -> usize
+	{
+		40
+	}
+	fn run(&self, _idx: u64, c: &mut Choices, ctx: &RunCtx) -> CaseOut
+	{
+		let mut out = CaseOut::default();
+		let declared = *c.pick(&[8usize, 4, 16, 2, 1]);
+		let prims: &[(&str, usize, &str)] = &[
+			("u8", 1, "1"),
+			("i8", 1, "1"),
+			("bool", 1, "true"),
+			("char8", 1, "'a'"),
+			("u16", 2, "1"),
+			("i16", 2, "1"),
+			("u32", 4, "1"),
+			("i32", 4, "1"),
+			("u64", 8, "1"),
+			("i64", 8, "1"),
+			("u128", 16, "1"),
+		];
+		// members until the raw sizes reach (or slightly pass) the declared size
+		let mut members: Vec<(&str, usize, &str)> = Vec::new();
+		let mut raw = 0usize;
+		let target = declared - c.draw(declared.min(3)) + if c.chance(1, 6) { 1 + c.draw(4) } else { 0 };
+		while raw < target && members.len() < 8
+		{
+			let fits: Vec<&(&str, usize, &str)> = prims.iter().filter(|p| raw + p.1 <= target.max(1)).collect();
+			if fits.is_empty()
+			{
+				break;
+			}
+			let m = **c.pick(&fits);
+			raw += m.1;
+			members.push(m);
+		}
+		if members.is_empty()
+		{
+			members.push(prims[0]);
+		}
+		// C layout: every member at the next multiple of min(size, 8)
+		let mut off = 0usize;
+		let mut maxa = 1usize;
+		for (_, size, _) in &members
+		{
+			let a = (*size).min(8);
+			off = (off + a - 1) / a * a + size;
+			maxa = maxa.max(a);
+		}
+		let size = (off + maxa - 1) / maxa * maxa;
+		let k = 2 + c.draw(3);
+		let decl: Vec<String> = members.iter().enumerate().map(|(i, m)| format!("\tm{}: {},\n", i, m.0)).collect();
+		let lit: Vec<String> = members.iter().enumerate().map(|(i, m)| format!("m{}: {}", i, m.2)).collect();
+		let src = format!(
+			"word{} W\n{{\n{}}}\n\nstruct Holder\n{{\n\tfirst: u8,\n\tw: W,\n}}\n\nconst SZ: usize = |:W|;\n\nfn main() -> i32\n{{\n\tvar w = W {{ {} }};\n\tvar a: [{}]W = [{}];\n\tprint!(|:W|, \" \", SZ, \" \", |:[{}]W|, \" \", |:Holder|, \" \", |a|, \"\\n\");\n\treturn: 0\n}}\n",
+			declared * 8,
+			decl.concat(),
+			lit.join(", "),
+			k,
+			(0..k).map(|_| "w").collect::<Vec<_>>().join(", "),
+			k
+		);
+		out.key = fnv(&src);
+		out.nontrivial = members.len() >= 2;
+		let holes = size != raw;
+		out.class(if size > declared { "word:too-large" } else if size < declared { "word:underfilled" } else { "word:exact" });
+		if holes
+		{
+			out.class("word:with-padding");
+		}
+		out.count("programs", 1);
+		let o = crate::alpha::compile_one(
+			&src,
+			crate::alpha::Options {
+				want_ir: true,
+				..Default::default()
+			},
+		);
+		let shape = format!("word{} {{ {} }}", declared * 8, members.iter().map(|m| m.0).collect::<Vec<_>>().join(", "));
+		let detail = json!({"source": src, "members_need_bytes": size, "declared_bytes": declared, "result": o.summary()});
+		if let Some(e) = &o.internal_error
+		{
+			out.fail(format!("word limits: internal error {}", e.chars().take(40).collect::<String>()), detail);
+		}
+		else if size > declared
+		{
+			if o.ok
+			{
+				out.fail(format!("a word whose members need {} bytes is accepted as word{}", size, declared * 8), detail);
+			}
+			else if !o.codes.contains(&380)
+			{
+				out.fail(format!("oversized word rejected with {:?} instead of E380: {}", o.codes, shape), detail);
+			}
+		}
+		else if !o.ok
+		{
+			if size == declared
+			{
+				out.fail(format!("exactly filled word rejected {:?}: {}", o.codes, shape), detail);
+			}
+			else
+			{
+				// docs: "does not match" - an underfilled word may be refused
+				out.class("note:underfilled-word-rejected");
+			}
+		}
+		else
+		{
+			let r = crate::alpha::run_ir(&o.module_irs[0], 10);
+			if r.timed_out
+			{
+				out.discarded = Some("lli watchdog".into());
+				return out;
+			}
+			out.count("comparisons", 1);
+			let got = String::from_utf8_lossy(&r.stdout).trim().to_string();
+			let nums: Vec<usize> = got.split(' ').filter_map(|x| x.parse().ok()).collect();
+			// the word after one u8 in a structure
+			let hoff = (1 + maxa - 1) / maxa * maxa + size;
+			let holder = (hoff + maxa - 1) / maxa * maxa;
+			let want = vec![size, size, size * k, holder, k];
+			if nums.len() != 5
+			{
+				out.fail("word limits: unexpected output", json!({"source": src, "stdout": got, "stderr": String::from_utf8_lossy(&r.stderr)}));
+			}
+			else if nums[0] != nums[1]
+			{
+				out.fail("|:W| as a constant differs from |:W| at run time", json!({"source": src, "stdout": got}));
+			}
+			else if nums[2] != nums[0] * k
+			{
+				out.fail(format!("|:[N]W| is not N * |:W| ({})", if size == declared { "exactly filled word" } else { "underfilled word" }), json!({"source": src, "stdout": got}));
+			}
+			else if nums != want
+			{
+				out.fail(
+					format!("sizes of a word differ from member sizes and alignment ({})", if size == declared { "exactly filled word" } else { "underfilled word" }),
+					json!({"source": src, "stdout": got, "expected": want}),
+				);
+			}
+		}
+		if ctx.want_sample
+		{
+			out.sample = Some(json!({"word": shape, "members_need_bytes": size, "accepted": o.ok}));
+		}
+		out
+	}
+}
+
 /// named-constant lengths and |x| through every way of passing an array
 struct ArrayLengths;
 impl Stream for ArrayLengths
@@ -303,7 +467,7 @@ impl Check for C10
 	}
 	fn rule(&self) -> String
 	{
-		"(a) 2-8 constants of random integer types initialised with random UB-free expressions (arithmetic, bitwise, shifts, casts, size-of, references to other constants in any top-level order, depth <= 5), each mirrored by `var v: T = <same expression>` in main, both printed; (b) arrays of length 0..7 whose length is a named constant defined by an expression (before or after its user), passed by name, as []T and &[]T through two call levels, via a pointer to the sized array, as a row of a 2-D array, as a struct member and as a constant array, with |x| printed at every level; (c) random structs and exactly-filled words (nested words/structs, arrays, pointers, all primitive types) whose |:S|, |:[k]S|, |:T|, |:[k]T|, |:[m][k]T| are printed at run time and through `const SZ: usize = |:S|`. Oracle: constant == run-time twin == reference interpreter; |x| == declared length everywhere; sizes == C layout from the declared data layout. Non-trivial: an expression of depth >= 3 containing a cast (a), always (b), a structure with >= 3 members (c); distinct by source.".into()
+		"(a) 2-8 constants of random integer types initialised with random UB-free expressions (arithmetic, bitwise, shifts, casts, size-of, references to other constants in any top-level order, depth <= 5), each mirrored by `var v: T = <same expression>` in main, both printed; (b) arrays of length 0..7 whose length is a named constant defined by an expression (before or after its user), passed by name, as []T and &[]T through two call levels, via a pointer to the sized array, as a row of a 2-D array, as a struct member and as a constant array, with |x| printed at every level; (c) random structs and exactly-filled words (nested words/structs, arrays, pointers, all primitive types) whose |:S|, |:[k]S|, |:T|, |:[k]T|, |:[m][k]T| are printed at run time and through `const SZ: usize = |:S|`. Oracle: constant == run-time twin == reference interpreter; |x| == declared length everywhere; sizes == C layout from the declared data layout. (d) word8..word128 with 1-8 primitive members whose raw sizes reach, stay below or pass the declared size, in any order (so that padding holes occur): members needing more than the declared size => E380, exactly filled => accepted, and for every accepted word |:W| == constant |:W| , |:[N]W| == N * |:W|, |:W| and |:struct { u8, W }| equal to member sizes plus alignment padding (underfilled words may be refused: docs say 'does not match'). Non-trivial: an expression of depth >= 3 containing a cast (a), always (b), a structure with >= 3 members (c), a word with >= 2 members (d); distinct by source.".into()
 	}
 	fn assumptions(&self) -> Vec<String>
 	{
@@ -314,6 +478,6 @@ impl Check for C10
 	}
 	fn streams(&self) -> Vec<Box<dyn Stream>>
 	{
-		vec![Box::new(ConstExprs), Box::new(ArrayLengths), Box::new(Layouts)]
+		vec![Box::new(ConstExprs), Box::new(ArrayLengths), Box::new(Layouts), Box::new(WordLimits)]
 	}
 }
